@@ -795,14 +795,15 @@ class Engine(OpsMixin):
     def call_function(self, fn, args, kwargs):
         node, base = self.get_ast(fn)
         env = {}
-        if fn.__closure__:
-            # free variables of a native closure (read access)
-            for nm, cell in zip(fn.__code__.co_freevars, fn.__closure__):
-                try:
-                    env[nm] = cell.cell_contents
-                except ValueError:
-                    pass
         self.bind_args(node.args, fn, args, kwargs, env)
+        if fn.__closure__:
+            # free variables of a native closure (read access); after the parameters: the first entry of env is `self`
+            for nm, cell in zip(fn.__code__.co_freevars, fn.__closure__):
+                if nm not in env and nm != "__class__":
+                    try:
+                        env[nm] = cell.cell_contents
+                    except ValueError:
+                        pass
         frame = Frame(env, fn.__globals__, fn, None)
         frame.line_base = base
         self.depth = getattr(self, "depth", 0) + 1
